@@ -72,6 +72,7 @@ inductive Resp where
   | internalErr               -- bfe_basic.CreateInternalSrvErrResp (500)
   | redirect (pt idx : Nat)   -- Redirect(...) to the URL set by filter `idx` at point `pt`
   | default200                -- nothing was written by ServeHTTP: finishRequest writes an empty 200
+  | redirectPlus (pt idx : Nat) -- status and Location of that redirect, but the body is NOT exactly the redirect note
   | other
   deriving DecidableEq, Repr
 
@@ -267,7 +268,8 @@ def reqBytes : Nat := 39
 
 /-- The documented reaction (docs/en_us/development/module/bfe_callback.md: Finish = send response, then close;
     Redirect = redirect directly; Response = send response; Close = close without sending response), judged on
-    what the client saw (`outs`), the number of backend contacts and the client bytes never read. -/
+    what the client saw (every response is compared byte for byte: status, source marker / Location, and the whole
+    body — a redirect whose body is anything else than the redirect note is `redirectPlus`) (`outs`), the number of backend contacts and the client bytes never read. -/
 def judgeR (n : Nat) (σ : Nat → ChainRes) (outs : List Resp) (backend unread : Nat) : Option String :=
   if n == 0 then
     (if outs.isEmpty && backend == 0 then none else some "output-without-request")
@@ -299,6 +301,7 @@ def judgeR (n : Nat) (σ : Nat → ChainRes) (outs : List Resp) (backend unread 
     else if v == vRedirect then
       if pt == pForward then
         (if backend == 0 && outs.head? == some (.redirect pt idx) then none else some "redirect-ignored-forward")
+      else if outs.head? == some (.redirectPlus pt idx) then some "redirect-not-exact"
       else if outs.head? != some (.redirect pt idx) then some "redirect-not-sent"
       else if preForward && backend != 0 then some "redirect-backend-contacted"
       else none
